@@ -10,7 +10,7 @@ Definition code_params : params :=
   mkP hidden_names set_in_with set_after uses_combined exc_view_name iev_none_raises iev_reraise_catches
       handler_catches handler_reraises_original tween_catches default_excview_contexts
       (nf_context, nf_exception_only) (fb_context, fb_exception_only) (exc_default_context, exc_exception_only)
-      default_view_returns_context permissive_checks_predicates nf_forwards fb_forwards.
+      default_view_returns_context permissive_checks_predicates nf_forwards fb_forwards viewdefaults_on.
 
 
 (* the pipeline built from the REGENERATED functions (Gen/Facts_C14.v): this is what the correspondence run executes *)
@@ -36,8 +36,9 @@ Definition run_C14 (v : val) : val :=
         let sbodies := bodies_of spec_params nm decls in
         Some (VL (map (fun ir =>
            let '(i, (ph, ri)) := ir in
-           let W := mkWorld (register_all accept_order_default (regs_upto code_params names nm decls ph)) bodies excs in
-           let SW := mkWorld reg_empty sbodies excs in
+           let W := mkWorld (register_all accept_order_default (regs_upto code_params names nm decls ph)) bodies excs
+                              containment_reads_request_context physical_path_reads_request_context in
+           let SW := mkWorld reg_empty sbodies excs true false in
            let sregs := regs_upto spec_params names nm decls ph in
            let tr := run_request_gen code_params W ri in
            let tr_ref := run_request_pm code_params W ri in
